@@ -257,10 +257,11 @@ Definition ack_removed (tok : str) : option str :=
    ack_step above) and with (aware = true) the branch added by
    notes/proposed-fixes/cap-ack-removal.diff:
        if strings.HasPrefix(cap, "-") { delete(c.state.enabledCap, cap[1:]); continue }
-   When that patch is applied to /repo, ack_step above becomes
-       Definition ack_step tmp en tok := ack_step_gen true tmp en tok.
-   and Spec/CapSpec.v ack_removal_aware becomes true; Proofs/CapProofs.v ack_step_matches
-   fails to compile if the two disagree. *)
+   When that patch is applied to /repo, apply notes/proposed-fixes/cap-ack-removal.model.diff:
+   ack_step above gets the removal branch (it cannot refer to ack_step_gen, which is defined
+   after it) and Spec/CapSpec.v ack_removal_aware becomes true.  Proofs/CapProofs.v
+   ack_step_matches proves ack_step = ack_step_gen ack_removal_aware and fails to compile
+   when the two are not switched together. *)
 Definition ack_step_gen (aware : bool) (tmp : capmap) (en : capmap) (tok : str) : capmap :=
   match (if aware then ack_removed tok else None) with
   | Some name => adel name en
